@@ -20,9 +20,22 @@ def texts():
             yield "".join(t)
 
 
+HEX_ALPHA = "+-0x1f.p8X \t"
+HEX_MAXLEN = 6 if os.environ.get("VERIF_NATIVE_SIZE", "quick") == "thorough" else 5
+
+
+def hex_texts():
+    for n in range(0, HEX_MAXLEN + 1):
+        for t in itertools.product(HEX_ALPHA, repeat=n):
+            yield "".join(t)
+
+
 def prepare(d):
     with open(os.path.join(d, "texts.txt"), "w") as f:
         for s in texts():
+            f.write(s + "\n")
+    with open(os.path.join(d, "hex_texts.txt"), "w") as f:
+        for s in hex_texts():
             f.write(s + "\n")
 
 
@@ -48,6 +61,17 @@ def judge(d):
             n += 1
             if got != exp:
                 mismatch("float(%r)" % s, exp, got)
+    with open(os.path.join(d, "out_fromhex.txt")) as f:
+        for s in hex_texts():
+            got = f.readline()[:-1]
+            try:
+                v = float.fromhex(s)
+                exp = '%016x' % (NANBITS if math.isnan(v) else bits(v))
+            except (ValueError, OverflowError):
+                exp = 'E'
+            n += 1
+            if got != exp:
+                mismatch("float.fromhex(%r)" % s, exp, got)
     with open(os.path.join(d, "out_render.txt")) as f:
         for line in f:
             b, kind, got = line.rstrip('\n').split('\t')
